@@ -4,8 +4,10 @@ import KVerif.Drv.C14
 namespace KVerif.Drv.C07o
 open KVerif.Drv KVerif.Drv.Kan
 
-/-- strip the trailing ` D <digest>` -/
-def dropDigest (s : String) : String := ((s.splitOn " D ").headD s).trimAscii.toString
+/-- the trace without the layout digest (` D …`) and without the dynamic-macro digest (` M rec=…`, [dyn]) -/
+def dropDigest (s : String) : String :=
+  let s := (s.splitOn " D ").headD s
+  ((s.splitOn " M rec=").headD s).trimAscii.toString
 
 def flatten (items : List C14.TItem) : List (Nat × String) :=
   items.flatMap fun it => it.evs.map fun e => (it.vt, e)
@@ -16,7 +18,7 @@ def diagnose (cs : String) : String :=
   | .ok c =>
     match c.k with
     | some k =>
-      match Kan.runHist false true false c.hist (c.run0 k) with
+      match Kan.runHist false true false c.hist { c.run0 k with sched := c.sched1 } with
       | .ok r => (match r.diag with | [] => "" | d :: _ => s!" [model: {d}]")
       | .error _ => ""
     | none => ""
